@@ -286,7 +286,7 @@ func init() {
 		t := m.namedType("mime/multipart", "part")
 		c := newCell(zero(t))
 		m.side[c] = &Opaque{Kind: "mppart", X: p}
-		return Iface{T: types.NewPointer(t), V: c}
+		return Iface{T: ptrTo(t), V: c}
 	}
 	R("(*mime/multipart.Writer).CreateFormField", func(m *Machine, a []Value) Value {
 		w := mpw(m, a[0])
@@ -469,7 +469,7 @@ func init() {
 		req := a[0].(Ptr)
 		o, ok := m.side[req].(*Opaque)
 		key := m.concStr(a[1], "form file key")
-		ft := types.NewPointer(m.namedType("mime/multipart", "sectionReadCloser"))
+		ft := ptrTo(m.namedType("mime/multipart", "sectionReadCloser"))
 		if !ok || o.Kind != "multipartform" {
 			return Tuple{Iface{}, Ptr(nil), m.errorValue("http: no such file")}
 		}
